@@ -297,7 +297,7 @@ RETCODE adfReadFileExtBlock ( struct AdfVolume * const     vol,
     if ( rc != RC_OK ) {
         adfEnv.eFct ( "adfReadFileExtBlock: error reading block %d, volume '%s'",
                       nSect, vol->volName );
-        //return RC_ERROR;
+        return rc;     /* buf holds nothing valid: the caller's block keeps its content */
     }
 /*printf("read fext=%d\n",nSect);*/
     memcpy(fext,buf,sizeof(struct bFileExtBlock));
